@@ -385,7 +385,9 @@ func RunCase(t *testing.T, c *Case, work, sched *choice.Source, st *Stats) (fs [
 	runtime.GOMAXPROCS(gmp)
 	knobs := map[string]int{"render.workers": workers}
 	if huge {
-		knobs["hook.stride"], knobs["auto.stride"] = 64, 64
+		// (no thinning of scheduling points: a thinned run is not a function of the tape -
+		// goroutines handed a value over a channel run side by side until they park)
+		knobs["hook.stride"], knobs["auto.stride"] = 1, 1
 	}
 	pol := simsched.DrawPolicy(sched)
 	// (auxiliary tape) nested renders: one case in eight
